@@ -418,7 +418,7 @@ def gen_validation_packet(rng):
             flt = gen_filter_alpha(rng) if rng.chance(0.7) else gen_filter(rng)
             f.append(f"sub={hexs(flt)}:{rng.choice([0, 1, 2])}:{rng.choice([0, 0, 1])}:{rng.choice([0, 1])}:{rng.choice([0, 1, 2])}")
         if rng.chance(0.3):
-            f.append(f"subid={rng.choice([1, 127, 128, 268435455])}")
+            f.append(f"subid={rng.choice([0, 1, 127, 128, 268435455, 268435456, 4294967295])}")
         f += gen_ups(rng, "up", allow_over=True)
         return " ".join(f)
     if k == "unsubscribe":
